@@ -272,15 +272,22 @@ func main() {
 	pats := strings.Split(*pkgPat, ",")
 	overlay := map[string][]byte{}
 	if *overlayDir != "" {
-		files, _ := filepath.Glob(filepath.Join(*overlayDir, "*.go"))
-		sort.Strings(files)
-		target := filepath.Join(*repo, strings.TrimPrefix(pats[0], "./"))
-		for _, f := range files {
-			b, err := os.ReadFile(f)
-			if err != nil {
-				panic(err)
+		// "dir" (into the first package) or "pkg=dir,pkg=dir"
+		for _, spec := range strings.Split(*overlayDir, ",") {
+			pkg, dir := pats[0], spec
+			if i := strings.Index(spec, "="); i > 0 {
+				pkg, dir = spec[:i], spec[i+1:]
 			}
-			overlay[filepath.Join(target, "zz_verif_"+filepath.Base(f))] = b
+			files, _ := filepath.Glob(filepath.Join(dir, "*.go"))
+			sort.Strings(files)
+			target := filepath.Join(*repo, strings.TrimPrefix(pkg, "./"))
+			for _, f := range files {
+				b, err := os.ReadFile(f)
+				if err != nil {
+					panic(err)
+				}
+				overlay[filepath.Join(target, "zz_verif_"+filepath.Base(f))] = b
+			}
 		}
 	}
 	env := append(os.Environ(), "GOFLAGS=", "GOPROXY=off", "GOSUMDB=off", "GOTOOLCHAIN=local")
